@@ -12,7 +12,7 @@ PROPERTY = 'C13'
 LEVEL = 'exploration'
 RULE = ('fragment texts built as token lists: a random molecule (or coarse graph) is rendered as SMILES (random start atom, '
         'neighbour order, ring digits 1-9/%nn, ring bond symbol at opening/closing digit, bracket atoms with H count / charge, '
-        'two-letter elements, the wildcard [*] on the text reader; coarse graphs also with a node multiplied 1-12 times by the expansion operator), THEN 0-4 descriptors per atom (kinds $ > < !, optional label, order symbol from . - = # $ or '
+        'two-letter elements, the wildcard [*] on the text reader; coarse graphs also with a node multiplied 1-12 times by the expansion operator, and hand-built coarse texts with a multiplied branch - anchor(branch)|n - followed by descriptors and further nodes), THEN 0-4 descriptors per atom (kinds $ > < !, optional label, order symbol from . - = # $ or '
         'none) are inserted after atoms - before, after or between ring digits, or leading for the first atom - and '
         'annotations (positional/keyword weight, chirality, free keys) inside bracket atoms. Expected result is known by '
         'construction: text without insertions, ordered descriptor list kind+label+order per atom index, annotation dict per '
@@ -152,8 +152,52 @@ def tok_text(t, clean=False):
     return t[1]
 
 
+def mult_branch_case(rng):
+    """coarse text with a multiplied branch: [pre nodes] anchor(branch)|n [descriptors] [post nodes].  The anchor and its branch
+    stand n times; what is written behind the operator belongs to the LAST copy of the anchor, later nodes count from there"""
+    names = ['A', 'B', 'PEO', 'X1', 'C']
+    text, clean, desc, k = '', '', {}, 0
+
+    def node(with_desc):
+        nonlocal text, clean, k
+        t = '[#%s]' % rng.choice(names)
+        text += t
+        clean += t
+        if with_desc:
+            put(k)
+        k += 1
+
+    def put(at):
+        nonlocal text
+        for _ in range(rng.choice([1, 1, 2])):
+            x = (rng.choice(KINDS), rng.choice(LABELS), 1)
+            text += M.fmt_desc(*x)
+            desc.setdefault(at, []).append('%s%s%d' % x)
+    for _ in range(rng.randint(0, 2)):
+        node(rng.random() < 0.5)
+    anchor = k
+    node(False)
+    m = rng.randint(1, 3)
+    text += '('
+    clean += '('
+    for _ in range(m):
+        node(False)
+    n = rng.choice([1, 2, 2, 3, 4, 11])
+    text += ')|%d' % n
+    clean += ')|%d' % n
+    k = anchor + n * (1 + m)
+    if rng.random() < 0.8:
+        put(anchor + (n - 1) * (1 + m))
+    for _ in range(rng.randint(0, 2)):
+        node(rng.random() < 0.7)
+    return dict(text=text, clean=clean, desc={str(a): v for a, v in desc.items()}, attrs={}, natoms=k, coarse=True, text_only=False,
+                features=['coarse', 'multiplied_branch'] + (['branch_multiplied_3plus_times'] if n >= 3 else []))
+
+
 def cases(seed, tier, shard, nshards):
     rng = random.Random(f'{seed}:C13:{tier}:{shard}')
+    for _ in range(SIZES[tier] // (40 * nshards)):
+        yield mult_branch_case(rng)
     for _ in range(SIZES[tier] // nshards):
         coarse = rng.random() < 0.25
         tokens, atoms, annots = render_coarse(rng) if coarse else render_atomistic(rng)
